@@ -1,16 +1,20 @@
 """C13 — Applying calibration: composition, invalid-gain handling and invertibility (correspondence + search).
 
-Three streams, all driven by explicit JSON-able configurations (a replay file carries the whole configuration):
+Three streams (v4 and invert also reopen the same store with preselect=... and compare with the fully opened data set), all driven by explicit JSON-able configurations (a replay file carries the whole configuration):
 
 direct   katdal.applycal.calc_correction on a SensorCache holding generated `Calibration/Corrections/...` sensors
          (ndarray and CategoricalData forms), then the three numba kernels through dask elemwise exactly as
          VisibilityDataV4._make_corrected does; compared for EQUALITY with the extracted Coq model (tie: block-wise
          evaluation over the same chunking) and the extracted Coq spec (property: pointwise product formula, the
          product's own channelisation).
-v4       full data sets (fixtures.v4.build_v4 + a 'cal' stream in telstate) opened with applycal=...; the
-         correction sensors katdal derived from the solutions are read back and are the model's given inputs
-         (the derivation itself is C14); corrected vis / weights / raw flags under random selections and
-         second-stage indexing are compared for equality with model and spec.
+v4       full data sets (fixtures.v4.build_v4 + a 'cal' stream in telstate, B optionally a multi-part "split cal"
+         product whose parts have solutions at different times) opened with applycal=...; the correction sensors
+         katdal derived from the solutions are read back and are the model's inputs (tie); the corrections the
+         SOLUTIONS call for are derived independently by the harness (expected_corrections) and are the spec's
+         inputs (property, end to end: a missing solution must leave vis as stored, weight 0, postproc); corrected
+         vis / weights / raw flags under random selections and second-stage indexing are compared for equality.
+         The same store reopened with preselect={'channels','dumps'} must equal the fully opened data set on the
+         loaded dumps/channels and the spec on the loaded subset.
 invert   v4 data sets whose stored visibilities were corrupted by known complex per-input gains, delays and
          bandpasses, same solutions at every dump: corrected vis within REL_TOL of the clean ones (the one clause of
          the property that says "to within single-precision rounding").
@@ -28,15 +32,24 @@ RULE = ('direct: 1-4 cal products from 1-2 streams (own channel counts and centr
         'with weights matched so that the float32 division is exact), NaN and zero at random positions, ndarray or '
         'categorical sensors, shuffled/duplicated corrprod pairs, random chunkings on all three axes, a second '
         'chunking and a random loaded subset; v4: real positive power-of-two G (with or without channel axis), '
-        'B with NaN edges, K zero/NaN solutions through katdal.open-equivalent data sets, shuffled bls_ordering, '
-        'random selections; invert: complex gains/delays/bandpasses.  A case is one configuration; non-trivial when '
+        'B (one value per input and solution time, NaN band edges / inputs / single solutions; single or split '
+        'into 2-3 parts whose solution times are random subsets of a common set, parts absent altogether), '
+        'K zero/NaN solutions through katdal.open-equivalent data sets, shuffled bls_ordering, random selections; '
+        'the corrections every input must get are derived from the SOLUTIONS by the harness and the spec is '
+        'evaluated on those; 60% of the data sets are reopened with preselect (channels [a,b), dumps [a,b) or '
+        'both) and compared with the fully opened one on the same dumps/channels; invert: complex '
+        'gains/delays/bandpasses, 75% also reopened with preselect.  A case is one configuration; non-trivial when '
         'at least one factor is finite and not 1 and (direct, v4) at least one factor is NaN or two products '
         'are combined; distinct by the whole configuration')
 ASSUMPTIONS = ['correction values are finite or NaN (infinite corrections are outside the model: inf*0 is NaN in IEEE)',
                'generated gains keep every complex64 product, |factor|^2 and the weight division exact in float32 '
                '(checked by the harness against a float64 evaluation); rounding is not verified',
-               'the solutions-to-corrections interpolation (C14) is taken as given: in the v4 stream the correction '
-               'sensors are read back from the data set',
+               'v4 stream: the model (tie) runs on the correction sensors read back from the data set; the spec '
+               '(property) runs on corrections derived by the harness from the solutions put into telstate, which is '
+               'exact only for the generated class (G constant in time per input, B constant over the band per input '
+               'and solution time, K delays 0/NaN); general interpolation in time/frequency is C14',
+               'a preselected data set is generated only when every K/B product has a solution before the end of the '
+               'loaded dumps (otherwise katdal has no sensor value and raises)',
                'invert stream tolerance: |corrected - clean| <= 2^-16 * (1 + number of products) * max(|clean|, 1) per component']
 
 warnings.simplefilter('ignore')
@@ -502,7 +515,8 @@ def gen_v4(rng, tier='quick', force=None):
         exps = [[rng.randint(-3, 3) for _ in range(n_ant)] for _ in range(2)]
         cexp = [rng.randint(-1, 1) for _ in range(n_cal)]      # constant in time: interpolation stays exact
         g_with_chans = rng.random() < 0.4
-        evs = sorted(rng.sample(range(-1, T), rng.randint(1, min(4 if t == 'B' else 3, T + 1))))
+        n_ev = rng.randint(2 if (t == 'B' and n_parts > 1) else 1, min(4 if t == 'B' else 3, T + 1))
+        evs = sorted(rng.sample(range(-1, T), n_ev))
         events = []
         for dump in evs:
             if t == 'K':
@@ -532,6 +546,14 @@ def gen_v4(rng, tier='quick', force=None):
                     keeps.append([e for e in evs if rng.random() < 0.65])
             if not any(keeps):
                 keeps[rng.randrange(n_parts)] = list(evs)
+            if rng.random() < 0.75:
+                # make sure some part (mostly one at a band edge: an interior gap is interpolated over) lacks a
+                # solution at a time at which another part has one, and has a LATER one
+                q = rng.choice([0, n_parts - 1, rng.randrange(n_parts)])
+                j = rng.randrange(len(evs) - 1)
+                keeps[q] = sorted((set(keeps[q]) - {evs[j]}) | {rng.choice(evs[j + 1:])})
+                o = rng.choice([k for k in range(n_parts) if k != q])
+                keeps[o] = sorted(set(keeps[o]) | {evs[j]})
             for q, keep in enumerate(keeps):
                 if keep:
                     products['B%d' % q] = [[e, arr[q * per:(q + 1) * per]] for e, arr in events if e in keep]
@@ -1116,8 +1138,10 @@ def run(ctx):
             ctx.disagree('route=direct;symptom=model_rejects_case', cfg, None, mo, 'wire format error', kind='tie')
             continue
         run_direct(ctx, cfg, mo)
-    for _ in range(ctx.scale(40, 500)):
-        run_v4(ctx, gen_v4(random.Random(ctx.rng.getrandbits(48)), ctx.tier))
+    for k in range(ctx.scale(40, 500)):
+        # a third of the cases with a multi-part B product, a third reopened with a channel (+ dumps) preselection
+        force = [dict(parts=True), dict(pre=['channels', 'both'][k // 3 % 2]), None][k % 3]
+        run_v4(ctx, gen_v4(random.Random(ctx.rng.getrandbits(48)), ctx.tier, force))
     for _ in range(ctx.scale(12, 120)):
         run_v4(ctx, gen_invert(random.Random(ctx.rng.getrandbits(48)), ctx.tier))
     # numpy's reciprocal of zero is NaN (the model's Cinv): probed on every run
